@@ -277,6 +277,30 @@ theorem listing_prints_only_innermost (line : Str → Var → Option Str) (env :
   obtain ⟨e, he, ht⟩ := List.mem_filterMap.mp h
   exact ⟨e.1, e.2, listing_entries_are_innermost env e he, ht⟩
 
+/-- context independence: what a listing shows for a name depends only on the name's visible
+(innermost) binding — not on hidden bindings, nor on how many scopes the execution context put
+around it (function frames, `eval`, a sourced file, a handler …) -/
+theorem listing_entry_depends_only_on_visible_binding (env₁ env₂ : Env) (n : Str)
+    (h : lookupEnv env₁ n = lookupEnv env₂ n) :
+    (visible env₁).lookup n = (visible env₂).lookup n := by
+  rw [listing_view_is_innermost, listing_view_is_innermost, h]
+
+/-- a context frame that does not bind the name (a function called in between, a wrapper) changes
+nothing for it, in the by-name lookup and in the listings alike -/
+theorem listing_entry_ignores_context_frames (frame : Scope) (env : Env) (n : Str)
+    (h : frame.lookup n = none) :
+    lookupEnv (frame :: env) n = lookupEnv env n ∧
+    (visible (frame :: env)).lookup n = (visible env).lookup n := by
+  have h1 : lookupEnv (frame :: env) n = lookupEnv env n := by
+    rw [lookupEnv_cons, h]; simp
+  exact ⟨h1, listing_entry_depends_only_on_visible_binding _ _ n h1⟩
+
+example :
+    let v : Var := { attrs := ['x'], kind := 's', vals := ["a b".toList] }
+    let other : Var := { attrs := [], kind := 's', vals := ["1".toList] }
+    (visible [[("i".toList, other)], [("v".toList, v)]]).lookup "v".toList =
+      (visible [[("v".toList, v)]]).lookup "v".toList := by decide
+
 /-- `declare -p` (no name) line of a scalar -/
 def declLine (n : Str) (v : Var) : Option Str :=
   match v.vals with
